@@ -37,7 +37,7 @@ CLAIMS["C02"] = (
 
 CLAIMS["C03"] = (
     'Rocq theorems over all histories and all states/events (replaying the emitted batches gives, under every key, exactly the attributes of the active resource after every event of every history; removals-first for every batch incl. concatenated listener+host batches; rebuild idempotent; state a function of the object set) + the shadow-replay specification evaluated in Rocq on the real change batches of every generated history; model of IsEqual/detectChanges/createResourceChanges/squash tied by correspondence',
-    "Machine-checked proof (no axioms) that for every history, applying the emitted batches in order (delete removes, addOrUpdate places) leaves configured exactly the resources GetResources() returns - nothing active is missing, nothing removed lingers (`C03_applied_set_is_active_set`, hypothesis: a TransportServer is TLS passthrough or listener-bound, not both, as ValidateTransportServer guarantees); that in every batch returned for any event in any state every removal precedes every addition/update; that rebuilding in a reachable state emits nothing; and that the state the batches must reproduce is a function of the object set. The full statement is proved as well (`C03_applied_configuration_is_current`: under every key the replayed configuration carries exactly the current attributes of the active resource) for every history obeying the API-server rule that a spec change moves the generation and a UID is not reused, with the cert-manager challenge conversion off; that corner and the tie are decided on every run by evaluating the shadow-replay specification in Rocq on the implementation's own batches, with a diagnosis of the stale attribute. Three genuine defects found this way were repaired by fix: commits (F01 F02 F03).",
+    "Machine-checked proof (no axioms) that for every history, applying the emitted batches in order (delete removes, addOrUpdate places) leaves configured exactly the resources GetResources() returns - nothing active is missing, nothing removed lingers (`C03_applied_set_is_active_set`, hypothesis: a TransportServer is TLS passthrough or listener-bound, not both, as ValidateTransportServer guarantees); that in every batch returned for any event in any state every removal precedes every addition/update; that rebuilding in a reachable state emits nothing; and that the state the batches must reproduce is a function of the object set. The full statement is proved as well (`C03_applied_configuration_is_current`: under every key the replayed configuration carries exactly the current attributes of the active resource) for every history obeying the API-server rule that a spec change moves the generation and a UID is not reused (with the cert-manager conversion on: challenge Ingresses of the same name and generation are converted into the same route); the tie of the model to the code is decided on every run by evaluating the shadow-replay specification in Rocq on the implementation's own batches, with a diagnosis of the stale attribute. Four genuine defects found this way were repaired by fix: commits (F01 F02 F03; F94 was found by the attempt to prove the cert-manager case and refuted in the model first).",
     ARB_NOTE + " Attributes a configuration is rendered from = the whole Resource except warnings; an object's spec is identified by (UID, generation, annotations).", "DESIGN.md 7 C03")
 CLAIMS["C20"] = (
     "Rocq theorems over all histories, fault oracles and lister orders of a model of SyncFnFor (certmanager + externaldns), tied by a correspondence harness on the real sync functions with "
